@@ -385,6 +385,9 @@ type nxCfg struct {
 	// snapshotter.Stream / rsm.ChunkWriter feed a real transport streaming job and
 	// the chunks are reassembled by the target's real transport.Chunk
 	OnDisk bool
+	// EntrySnappy: config.EntryCompressionType = Snappy (proposal payloads are
+	// stored encoded and decoded again in front of the user state machine)
+	EntrySnappy bool
 	// RequireCaughtUp: at the end of the scenario every running replica has
 	// applied everything that is committed anywhere
 	RequireCaughtUp bool
@@ -578,6 +581,9 @@ func (c *nxCluster) startHost(h *nxHost) {
 		SnapshotEntries: c.cfg.SnapshotEntries, CompactionOverhead: 1000, MaxInMemLogSize: c.cfg.RateLimit}
 	if c.cfg.Compaction > 0 {
 		cfg.CompactionOverhead = c.cfg.Compaction
+	}
+	if c.cfg.EntrySnappy {
+		cfg.EntryCompressionType = config.Snappy
 	}
 	peers, initial := nxPeers(c.cfg.N), true
 	if h.joiner {
